@@ -805,10 +805,33 @@ func (s *Sim) describe() string {
 	return sb.String()
 }
 
+// OnStuck, if set, is called by the watchdog with the scheduler's view and the
+// stack of the goroutine that failed to reach a yield point, before the process
+// exits with status 2.
+var OnStuck func(desc, stack string)
+
 func (s *Sim) watchdog() {
-	buf := make([]byte, 1<<20)
+	buf := make([]byte, 4<<20)
 	n := runtime.Stack(buf, true)
+	all := string(buf[:n])
+	stuck := ""
+	s.mu.Lock()
+	run := s.running
+	s.mu.Unlock()
+	if run != nil {
+		hdr := fmt.Sprintf("goroutine %d [", run.goid)
+		if i := strings.Index(all, hdr); i >= 0 {
+			stuck = all[i:]
+			if j := strings.Index(stuck, "\n\n"); j >= 0 {
+				stuck = stuck[:j]
+			}
+		}
+	}
+	desc := s.describe()
+	if OnStuck != nil {
+		OnStuck(desc, stuck)
+	}
 	fmt.Fprintf(os.Stderr, "WATCHDOG: scheduler waited %ds for the running task; harness/model mismatch\n%s\n%s\n",
-		s.WatchdogSecs, s.describe(), buf[:n])
+		s.WatchdogSecs, desc, all)
 	os.Exit(2)
 }
